@@ -496,6 +496,15 @@ def mask_inside_trimesh(points: np.ndarray, faces: np.ndarray) -> np.ndarray:
     """
     vertices = faces.reshape((-1, 3))
 
+    # work on a unit-size copy of the problem: the ray start offset and the tolerances of
+    # lines_end_in_trimesh (signed volumes, squared distances) are absolute numbers
+    vmin = np.min(vertices, axis=0)
+    size = np.max(np.max(vertices, axis=0) - vmin)
+    if size > 0:
+        points = (points - vmin) / size
+        faces = (faces - vmin) / size
+        vertices = faces.reshape((-1, 3))
+
     # test-points inside of enclosing box
     mask_inside = mask_inside_enclosing_box(points, vertices)
     pts_in_box = points[mask_inside]
